@@ -118,7 +118,14 @@ fn run_generate(
                         break;
                     }
                     Ok(None) => break,
-                    Err(_) => continue,
+                    // A configuration that cannot be used (unsupported validation library,
+                    // missing project path, malformed JSON) is an error, not a reason to
+                    // silently fall back to the defaults and generate somewhere else
+                    Err(e) => {
+                        return Err(
+                            format!("Invalid configuration in {}: {}", path.display(), e).into(),
+                        )
+                    }
                 }
             }
         }
